@@ -56,6 +56,7 @@ Theorem C02_instr_keeps_types : forall i k fn s s1 vis,
   exists args rest, vis = args ++ rest /\ length args = k /\
     match ref_simple i (map erase vis) with
     | Done r => exists outs, fn args = POk outs /\ map erase (outs ++ rest) = r /\ styped (outs ++ rest) s1
+    | RtError => fn args = PErr
     | _ => False
     end.
 Proof. exact simple_agree. Qed.
